@@ -108,10 +108,15 @@ Verdict_traps(ev) ==
 Verdict_same(ev) ==
   LET r1 == ev.runs[1] IN
   IF \E r \in AllRuns(ev) : ~Ran(r) THEN {"panic"}
-  ELSE Names(<< <<ev.gk, \A r \in AllRuns(ev) : SameOut(r, r1)>> >>)
+  ELSE Names(<< <<ev.gk, \A r \in AllRuns(ev) : SameOut(r, r1)>>,
+                <<"frame", \A r \in AllRuns(ev) :
+                     /\ r.ctxa = r.ctx
+                     /\ (r.al \notin {"dx", "dxy"} => SameRepr(r.xa, r.x))
+                     /\ (r.al \notin {"dy", "dxy", "xy"} => SameRepr(r.ya, r.y))>> >>)
 
 Verdict(ev) ==
-  CASE ev.gk = "modes" -> Verdict_modes(ev)
+  CASE ev.k = "sh" -> Names(<< <<"shared-state", ev.before = ev.after>> >>)
+    [] ev.gk = "modes" -> Verdict_modes(ev)
     [] ev.gk = "mono" -> Verdict_mono(ev)
     [] ev.gk \in {"swap", "subneg", "mirror", "scale"} -> Verdict_pair(ev)
     [] ev.gk = "traps" -> Verdict_traps(ev)
